@@ -238,7 +238,10 @@ pt_state_t console_run(console_t *c)
 			do_prompt(c);
 		} else if (ch == '\b') {
 			if (c->bufp > c->scratch.buf) {
-				c->bufp--;
+				/* erase the character from the line (the tokenizer
+				 * works on the whole NUL terminated buffer)
+				 */
+				*--c->bufp = '\0';
 				fprintf(c->out, " \b");
 			} else {
 				fprintf(c->out, " ");
